@@ -101,7 +101,10 @@ def build(F):
                                                        dict(name='update_mask', type='google.protobuf.FieldMask')])
     delete_req = dict(name='DeleteBookRequest', fields=[dict(req_name, required=req), dict(name='force', type='bool')])
     list_req = dict(name='ListBooksRequest', fields=[dict(parent, required=req), dict(name='page_size', type='int32'),
-                                                     dict(name='page_token'), dict(name='filter')])
+                                                     dict(name='page_token'), dict(name='filter')] +
+                    # required query parameters of non-string scalar kinds (their defaults must travel as false / 0.0 / 0)
+                    ([dict(name='show_deleted', type='bool', required=True), dict(name='min_rating', type='double', required=True),
+                      dict(name='max_age', type='int64', required=True)] if req else []))
     list_resp = dict(name='ListBooksResponse', fields=[dict(name='books', type='Book', repeated=True), dict(name='next_page_token')])
     msgs = [book_msg, shelf_msg, get_req, create_req, update_req, delete_req, list_req, list_resp] + extra_msgs
     if 'f_forward' in F:
@@ -133,6 +136,12 @@ def build(F):
         msgs.append(dict(name='MoveBookRequest', fields=[dict(name='name'), dict(name='dest')]))
         methods.append(dict(name='MoveBook', **{'in': 'MoveBookRequest', 'out': 'Book'},
                             http=[dict(verb='put', uri='/v1/{name=shelves/*/books/*}:move', body='*')], sigs=['name,dest'] if sig else []))
+    if 'f_map' in F and sig:
+        # a flattened MAP field (and a flattened repeated field) on its own method
+        msgs.append(dict(name='LabelBookRequest', fields=[dict(name='name'), dict(name='labels', type='map:string,string'),
+                                                          dict(name='tags', repeated=True)]))
+        methods.append(dict(name='LabelBook', **{'in': 'LabelBookRequest', 'out': 'Book'},
+                            http=http('post', '/v1/{name=shelves/*/books/*}:label', '*'), sigs=['name,labels,tags']))
     if 'm_sstream' in F:
         methods.append(dict(name='WatchBooks', **{'in': 'ListBooksRequest', 'out': 'Book'}, ss=True,
                             http=http('get', '/v1/{parent=shelves/*}/books:watch')))
